@@ -167,6 +167,10 @@ def _ops():
                                                                    lambda s, sp: (setattr(s.ins, "value", "x" * (s.ins.length - 1)), setattr(s.ins, "padded", True))))
     op("hardcoded-wrong-length", "padded-string-literal-longer")((lambda s, sp: s.ins is not None and s.ins.kind == "field" and not s.ins.optional and s.ins.type in ("string", "encoded_string") and isinstance(s.ins.length, int),
                                                                   lambda s, sp: (setattr(s.ins, "value", "x" * (s.ins.length + 2)), setattr(s.ins, "padded", True))))
+    op("hardcoded-wrong-length", "string-literal-on-zero-length")((lambda s, sp: s.ins is not None and s.ins.kind == "field" and not s.ins.optional and s.ins.type in ("string", "encoded_string") and isinstance(s.ins.length, int),
+                                                                   lambda s, sp: (setattr(s.ins, "value", "xy"), setattr(s.ins, "length", 0), setattr(s.ins, "padded", False))))
+    op("hardcoded-wrong-length", "padded-string-literal-on-zero-length")((lambda s, sp: s.ins is not None and s.ins.kind == "field" and not s.ins.optional and s.ins.type in ("string", "encoded_string") and isinstance(s.ins.length, int),
+                                                                          lambda s, sp: (setattr(s.ins, "value", "x"), setattr(s.ins, "length", 0), setattr(s.ins, "padded", True))))
     op("hardcoded-non-basic", "literal-on-struct-or-enum")((lambda s, sp: s.ins is not None and s.ins.kind == "field" and not s.ins.optional and s.ins.value is None and s.ins.type.split(":")[0] in sp.types() and not _switched(s),
                                                             lambda s, sp: setattr(s.ins, "value", "1")))
     op("hardcoded-non-basic", "literal-on-blob")((lambda s, sp: s.ins is not None and s.ins.kind == "field" and not s.ins.optional and s.ins.type == "blob",
